@@ -270,15 +270,9 @@ def parseItems (w : World) (child : ChildLoader) : List Item → Nat → PState 
         parseItems w child t 1 ⟨st.sheet, ⟨st.out.log ++ r1.out.log, st.out.recs⟩⟩
       else
         let s' : Sheet := { st.sheet with rules := st.sheet.rules ++ [.imp] }
-        if r1.found then
-          parseItems w child t 1 ⟨s', ⟨st.out.log ++ r1.out.log, st.out.recs ++ r1.out.recs⟩⟩
-        else
-          -- `insertRule`: `if not rule.hrefFound: rule.href = rule.href` (`cssstylesheet.py:880-882`)
-          match child s' u with
-          | .error e => .error e
-          | .ok r2 =>
-            parseItems w child t 1
-              ⟨s', ⟨st.out.log ++ r1.out.log ++ r2.out.log, st.out.recs ++ r2.out.recs⟩⟩
+        -- `insertRule`: `if not rule.hrefFound: rule._loadHref(rule.href, retry=False)` (`cssstylesheet.py:941-944`): the URL
+        -- that was tried is not fetched a second time (since ca7960c; before, a sheet that was not found was fetched twice)
+        parseItems w child t 1 ⟨s', ⟨st.out.log ++ r1.out.log, st.out.recs ++ r1.out.recs⟩⟩
   | .other :: t, _, st =>
     parseItems w child t 3 ⟨{ st.sheet with rules := st.sheet.rules ++ [.other] }, st.out⟩
 
